@@ -8,9 +8,13 @@ invocation: result (i32/i64 exact, f32/f64 bitwise, any NaN == any NaN, f32
 rounded to single), trap / no trap; and at the end: exported globals, the whole
 linear memory (size + sha256), and the host-call log.
 
-Two workloads:
+Three workloads:
   matrix  one function per numeric operator (all of wasmgen.SIG), called on the
           cross product of boundary operands (operator semantics in isolation);
+  cmpuse  every comparison operator x every consumer shape (eqz, eqz eqz, if, select,
+          br_if, br_table, another comparison, local, arithmetic, call argument,
+          loop exit, return guard ...) x boundary operands incl. NaN, +-0, +-inf:
+          wasm2ppci keeps comparison results as lazy (op, a, b) tuples until consumed;
   gen     wasmgen execution-profile modules (control flow, calls, indirect
           calls, locals, globals, memory, start, host imports), 8 calls/export.
 
@@ -95,6 +99,7 @@ finding("py-f32-runtime-helpers-not-rounded", ["python"], ["no-f32-sqrt-demote"]
 finding("py-f32-convert-i64-double-rounding", ["python"], ["f32-convert-i64-53bit"])
 finding("py-call-indirect-no-bounds-check", ["python"], ["no-call-indirect-oob"])
 finding("native-x86-variable-shift-miscompiled-under-pressure", ["native"], ["const-shift-count"])
+finding("wasm2ir-br-table-mutates-module", TARGETS, ["no-module-reuse"])
 finding("wasm2ir-loop-in-dead-code-crash", TARGETS, ["no-loop-in-dead-code"])
 finding("py-imported-func-in-elem-keyerror", ["python"], ["no-imported-func-in-elem"])
 
@@ -122,6 +127,9 @@ def plan(tier, seed, avoid):
     dense = tier != "quick"
     for k in range(0, len(ops), grp):
         specs.append({"part": "matrix", "ops": ops[k:k + grp], "dense": dense})
+    cmps = [o for o in ops if g.SIG[o][1] == "i32" and (o.endswith(".eqz") or o.split(".")[1] in g._ICMP + g._FCMP)]
+    for k in range(0, len(cmps), 9):
+        specs.append({"part": "cmpuse", "ops": cmps[k:k + 9], "dense": dense})
     return specs
 
 
@@ -131,7 +139,9 @@ def floors(tier):
             "observed.gen.modules": 300, "observed.matrix.ops": 130,
             "observed.opcodes_executed_python": 150, "observed.opcodes_executed_native": 150,
             "observed.reference.trap": 200, "observed.agree.trap.python": 50,
-            "observed.build.components": 100, "observed.build.bytes": 100}
+            "observed.build.components": 100, "observed.build.bytes": 100,
+            "observed.cmp_consumers": len(CMP_SHAPES), "observed.cmp_consumers.if_eqz": 1000,
+            "observed.features.cmp.negated": 100, "observed.features.cmp.special_operand": 200}
 
 
 # ---------------------------------------------------------------------------
@@ -173,6 +183,7 @@ def run_ppci(target, modules, tmp, tag, timeout_per_module=60):
                         cur, inflight = o["id"], "instantiate"
                     elif o["ev"] == "inst":
                         r["inst"], inflight = o["v"], "after-instantiate"
+                        r["module_changed"] = o.get("module_changed")
                     elif o["ev"] == "calling":
                         inflight = o["k"]
                     elif o["ev"] == "call":
@@ -230,7 +241,7 @@ class Shard:
                     "opcodes_executed_python": {}, "opcodes_executed_native": {}, "gen": {"modules": 0},
                     "matrix": {"ops": {}, "skipped_by_avoid": {}}, "build": {"components": 0, "bytes": 0},
                     "features": {}, "state": {"globals_compared": 0, "memory_compared": 0, "log_compared": 0},
-                    "flags": {t: {} for t in TARGETS}}
+                    "flags": {t: {} for t in TARGETS}, "cmp_consumers": {}}
         self.disc = {}
         self.viol = []
         self.samples = []
@@ -284,6 +295,13 @@ def compare(sh, target, mod, ref, got, ops_of_call=None):
             sh.violation("%s: instantiate fails with %s, V8 instantiates the module" % (target, got["inst"]),
                          dict(case0, ppci=got["inst"]))
         return
+    if got.get("module_changed") is not None:
+        sh.evals += 1
+        sh.bump(sh.obs["state"], "module_unchanged_checked")
+        if got["module_changed"]:
+            sh.violation("%s: instantiate() changed the Module object (to_bytes() differs afterwards)" % target, case0)
+    if mod.get("reuse"):
+        sh.bump(sh.obs["state"], "second_instance_of_same_module")
     ncalls = len(mod["calls"])
     complete = True
     for k in range(ncalls):
@@ -380,7 +398,9 @@ def run_gen(sh, spec):
                 gl, mem = export_info(desc)
                 vid = "m%d-%d" % (idx, len([1 for k in variants if k[0] == idx]))
                 build = "components" if idx % 2 == 0 else "bytes"
+                reuse = "no-module-reuse" not in flags
                 variants[key] = {"id": vid, "desc": desc, "build": build, "calls": calls, "globals": gl, "memory": mem,
+                                 "watch_module": reuse, "reuse": reuse and idx % 8 == 3,
                                  "wasm": base64.b64encode(ref_bytes).decode("ascii"), "flags": sorted(flags),
                                  "features": feats}
                 v8jobs.append({"id": vid, "wasm": ref_bytes, "imports": desc["imports"], "mode": "run", "calls": calls,
@@ -628,10 +648,149 @@ def run_matrix(sh, spec):
         sh.samples.append({"matrix_call": c, "v8": ref["mx-python"]["calls"][len(jobs["python"]["calls"]) // 2]})
 
 
+# ---------------------------------------------------------------------------
+# comparison-consumer matrix: wasm2ppci keeps the result of a comparison as a lazy (op, a, b)
+# tuple until something consumes it; every consumer shape is exercised for every comparison
+# operator on boundary operands (NaN, +-0, +-inf for floats)
+
+CMP_SHAPES = ["eqz", "eqz_eqz", "if", "if_eqz", "select", "select_eqz", "br_if", "br_if_eqz", "eq_zero",
+              "ne_swapped", "ltu_eqz_swapped", "local_then_eqz", "add_eqz_swapped", "br_table", "nested_if",
+              "tee_if", "if_noelse_set", "loop_exit", "extend", "call_arg", "return_if"]
+
+
+def cmp_shape_body(shape, ab, ba, nparams):
+    """Function body (result i32) consuming comparison code `ab` (and `ba`: operands swapped).
+    Locals: params, then one i32 scratch local at index nparams.  Function 0 of the module is
+    the helper (i32)->i32 x*2+1."""
+    c7, c9, c0, c1 = [["i32.const", 7]], [["i32.const", 9]], [["i32.const", 0]], [["i32.const", 1]]
+    E = [["i32.eqz"]]
+    t = nparams
+    if shape == "eqz":
+        return ab + E
+    if shape == "eqz_eqz":
+        return ab + E + E
+    if shape in ("if", "if_eqz"):
+        return ab + (E if shape == "if_eqz" else []) + [["if", "i32"]] + c7 + [["else"]] + c9 + [["end"]]
+    if shape in ("select", "select_eqz"):
+        return c7 + c9 + ab + (E if shape == "select_eqz" else []) + [["select"]]
+    if shape in ("br_if", "br_if_eqz"):
+        return [["block", "i32"]] + c7 + ab + (E if shape == "br_if_eqz" else []) + [["br_if", 0], ["drop"]] + c9 + [["end"]]
+    if shape == "eq_zero":
+        return ab + c0 + [["i32.eq"]]
+    if shape == "ne_swapped":
+        return ab + ba + [["i32.ne"]]
+    if shape == "ltu_eqz_swapped":
+        return ab + E + ba + [["i32.lt_u"]]
+    if shape == "local_then_eqz":
+        return ab + [["local.set", t], ["local.get", t]] + E
+    if shape == "add_eqz_swapped":
+        return ab + ba + E + [["i32.add"]]
+    if shape == "br_table":
+        return [["block", ""], ["block", ""]] + ab + [["br_table", [0], 1], ["end"]] + c7 + [["return"], ["end"]] + c9
+    if shape == "nested_if":
+        return ab + [["if", "i32"]] + ba + E + [["if", "i32"]] + c1 + [["else"], ["i32.const", 2], ["end"], ["else"],
+                                                                      ["i32.const", 3], ["end"]]
+    if shape == "tee_if":
+        return ab + [["local.tee", t], ["if", "i32"], ["local.get", t]] + [["else"]] + c9 + [["end"]]
+    if shape == "if_noelse_set":
+        return c9 + [["local.set", t]] + ab + E + [["if", ""]] + c7 + [["local.set", t], ["end"], ["local.get", t]]
+    if shape == "loop_exit":
+        # loop runs once more when the (negated) comparison holds the first time round
+        return c0 + [["local.set", t], ["loop", ""], ["local.get", t]] + c1 + [["i32.add"], ["local.set", t]] + ab + E + \
+            [["local.get", t], ["i32.const", 2], ["i32.lt_u"], ["i32.and"], ["br_if", 0], ["end"], ["local.get", t]]
+    if shape == "extend":
+        return ab + [["i64.extend_i32_u"], ["i64.const", 3], ["i64.mul"], ["i32.wrap_i64"]]
+    if shape == "call_arg":
+        return ab + [["call", 0]] + ba + E + [["call", 0], ["i32.add"]]
+    if shape == "return_if":
+        return ab + E + [["if", ""]] + c7 + [["return"], ["end"]] + c9
+    raise KeyError(shape)
+
+
+def run_cmpuse(sh, spec):
+    import base64
+    import itertools
+    import math
+    from vlib import wasmgen as g, v8run
+
+    tmp = os.environ["VERIF_TMP"]
+    r = rng(spec["seed"], PROPERTY, "cmpuse" + spec["ops"][0])
+    pool = {
+        "i32": [0, 1, -1, 2, -0x80000000, 0x7FFFFFFF, 255],
+        "i64": [0, 1, -1, -0x8000000000000000, 0x7FFFFFFFFFFFFFFF, 0x100000000, -0x80000000],
+        "f32": [g.f32_bits(x) for x in (0.0, -0.0, 1.0, -1.5, 1e-45, 3.4028234663852886e38)] + [0x7F800000, 0xFF800000, 0x7FC00000],
+        "f64": [g.f64_bits(x) for x in (0.0, -0.0, 1.0, -1.5, 5e-324, 1.7976931348623157e308)] + [0x7FF0000000000000, 0xFFF0000000000000, 0x7FF8000000000000],
+    }
+    for t in pool:
+        pool[t] = pool[t] + [g.rand_value(r, t) for _ in range(3 if spec.get("dense") else 1)]
+    desc = {"types": [[["i32"], ["i32"]]], "imports": [], "table": None, "memory": None, "globals": [], "exports": [],
+            "start": None, "elems": [], "datas": [], "custom": [],
+            "funcs": [{"type": 0, "locals": [], "body": [["local.get", 0], ["i32.const", 2], ["i32.mul"], ["i32.const", 1],
+                                                         ["i32.add"]]}]}
+    allcalls = []
+    for op in spec["ops"]:
+        a, _ = g.SIG[op]
+        sig = [list(a), ["i32"]]
+        if sig not in desc["types"]:
+            desc["types"].append(sig)
+        ab = [["local.get", i] for i in range(len(a))] + [[op]]
+        ba = [["local.get", i] for i in reversed(range(len(a)))] + [[op]]
+        for shape in CMP_SHAPES:
+            name = "%s__%s" % (op.replace(".", "_"), shape)
+            desc["funcs"].append({"type": desc["types"].index(sig), "locals": ["i32"],
+                                  "body": cmp_shape_body(shape, ab, ba, len(a))})
+            desc["exports"].append({"name": name, "kind": "func", "index": len(desc["funcs"]) - 1})
+            for combo in itertools.product(*[pool[t] for t in a]):
+                allcalls.append(({"f": name, "args": [[t, fmt(t, v)] for t, v in zip(a, combo)], "ret": "i32"}, op, a, combo))
+    ref_bytes = g.encode(desc)
+    wasm64 = base64.b64encode(ref_bytes).decode("ascii")
+    v8jobs, jobs = [], {}
+    for t in TARGETS:
+        flags = flags_for(spec["avoid"], t)
+        calls = []
+        for c, op, a, combo in allcalls:
+            base = op.split(".")[1]
+            if a[0] in ("f32", "f64") and base in ("eq", "ne", "lt", "le") and "float-cmp-gt-ge-only" in flags and \
+                    any(math.isnan(fval(g, ty, v)) for ty, v in zip(a, combo)):
+                sh.bump(sh.obs["matrix"]["skipped_by_avoid"], "%s.cmpuse.float-cmp-gt-ge-only" % t)
+                continue
+            calls.append(c)
+        jobs[t] = {"id": "cu-" + t, "desc": desc, "build": "bytes" if t == "python" else "components", "calls": calls,
+                   "globals": [], "memory": None, "wasm": wasm64, "flags": sorted(flags)}
+        v8jobs.append({"id": "cu-" + t, "wasm": ref_bytes, "imports": [], "mode": "run", "calls": calls, "globals": [],
+                       "memory": None})
+    try:
+        ref, versions = v8run.run_v8(v8jobs, tmp)
+    except v8run.V8Error as e:
+        sh.inconclusive.append("V8 oracle failed: %s" % e)
+        return
+    for t in TARGETS:
+        rj = ref["cu-" + t]
+        if not rj["valid"] or rj.get("inst") != "ok":
+            sh.inconclusive.append("comparison-consumer module rejected by V8: %s %s" % (rj.get("verr"), rj.get("inst")))
+            return
+        sh.obs["reference"]["value"] += len(rj["calls"])
+        got, disc = run_ppci(t, [jobs[t]], tmp, "cu")
+        for k, v in disc.items():
+            sh.bump(sh.disc, k, v)
+        sh.obs["build"][jobs[t]["build"]] += 1
+        sub = dict(jobs[t], desc={"cmpuse_ops": spec["ops"], "shapes": CMP_SHAPES})
+        compare(sh, t, sub, rj, got.get("cu-" + t),
+                ops_of_call=lambda c: [c["f"].split("__")[0].replace("_", ".", 1)])
+        for c in jobs[t]["calls"]:
+            sh.hashes.append(h([t, c["f"], c["args"]]))
+            sh.bump(sh.obs["cmp_consumers"], c["f"].split("__")[1])
+    if len(sh.samples) < 1:
+        k = len(jobs["python"]["calls"]) // 3
+        sh.samples.append({"cmpuse_call": jobs["python"]["calls"][k], "v8": ref["cu-python"]["calls"][k]})
+
+
 def run_shard(spec):
     sh = Shard(spec)
     if spec["part"] == "gen":
         run_gen(sh, spec)
+    elif spec["part"] == "cmpuse":
+        run_cmpuse(sh, spec)
     else:
         run_matrix(sh, spec)
     return sh.result()
@@ -800,7 +959,30 @@ def probe_native_traps():
     return "; ".join(x for x in (a, b) if x) or None
 
 
+def probe_br_table_mutation():
+    import logging
+    from ppci import wasm
+
+    logging.disable(logging.CRITICAL)
+    m = wasm.Module("""(module (func (export "f") (param i32) (result i32)
+        block block block local.get 0 br_table 0 1 2 end i32.const 10 return end i32.const 20 return end i32.const 30))""")
+    before = m.to_bytes()
+    first = wasm.instantiate(m, {}, target="python")
+    a = [first.exports.f(k) for k in range(4)]
+    changed = m.to_bytes() != before
+    try:
+        second = wasm.instantiate(m, {}, target="python")
+        b = [second.exports.f(k) for k in range(4)]
+    except Exception as e:  # noqa
+        b = "%s: %s" % (type(e).__name__, e)
+    if a == [10, 20, 30, 30] and b == a and not changed:
+        return None
+    return "first instance of a br_table module gives %s, second instance of the same Module object gives %s; " \
+           "Module bytes changed by instantiate: %s" % (a, b, changed)
+
+
 PROBES = {
+    "wasm2ir-br-table-mutates-module": probe_br_table_mutation,
     "native-no-trap-mechanism": probe_native_traps,
     "native-rem-s-overflow-sigfpe": lambda: _expect("native", "rems", "rems", "0", "i32.rem_s(INT_MIN, -1)"),
     "native-float-compare-unordered": lambda: _expect("native", "pure", "feq", "0", "f64.eq(nan, 1.0)"),
